@@ -522,6 +522,313 @@ Proof.
   destruct S as (_ & _ & _ & Hr & _). rewrite (Hr Hc). reflexivity.
 Qed.
 
+(* ------------------------------------------------------------------ kind 6: the multi-destination writer *)
+Definition dests (ds : list (wbeh * nat)) : list nat := map snd ds.
+Definition errs_of (f : wbeh -> bool) (ds : list (wbeh * nat)) : list nat :=
+  map snd (filter (fun p => f (fst p)) ds).
+Definition ns_of (ds : list (wbeh * nat)) : list nat := map (fun p => w_n (fst p)) ds.
+
+(* the loop visits every destination, whatever the destinations before it answered *)
+Lemma multi_write_evs : forall ds n, wr_evs (multi_write ds n) = map WWrite (dests ds).
+Proof. induction ds as [|[b d] t IH]; intros n; cbn; [reflexivity|]. now rewrite IH. Qed.
+Lemma multi_write_errs : forall ds n, wr_errs (multi_write ds n) = errs_of w_err ds.
+Proof.
+  induction ds as [|[b d] t IH]; intros n; cbn; [reflexivity|]. rewrite IH. unfold errs_of. cbn.
+  destruct (w_err b); reflexivity.
+Qed.
+Lemma fold_min_acc : forall l a n, fold_right Nat.min (Nat.min a n) l = Nat.min a (fold_right Nat.min n l).
+Proof. induction l as [|x l IH]; intros a n; cbn; [reflexivity|]. rewrite IH. lia. Qed.
+Lemma multi_write_n : forall ds n, wr_n (multi_write ds n) = fold_right Nat.min n (ns_of ds).
+Proof.
+  induction ds as [|[b d] t IH]; intros n; [reflexivity|]. cbn [multi_write wr_n]. rewrite IH.
+  unfold ns_of. cbn [map fst fold_right].
+  replace (if w_n b <? n then w_n b else n) with (Nat.min (w_n b) n) by (destruct (Nat.ltb_spec (w_n b) n); lia).
+  apply fold_min_acc.
+Qed.
+Lemma multi_sync_evs : forall ds, wr_evs (multi_sync ds) = map WSync (dests ds).
+Proof. induction ds as [|[b d] t IH]; cbn; [reflexivity|]. now rewrite IH. Qed.
+Lemma multi_sync_errs : forall ds, wr_errs (multi_sync ds) = errs_of w_serr ds.
+Proof.
+  induction ds as [|[b d] t IH]; cbn; [reflexivity|]. rewrite IH. unfold errs_of. cbn.
+  destruct (w_serr b); reflexivity.
+Qed.
+Lemma multi_sync_n : forall ds, wr_n (multi_sync ds) = 0.
+Proof. destruct ds as [|[b d] t]; reflexivity. Qed.
+
+Lemma comb_write_evs ds len : wr_evs (comb_write ds len) = map WWrite (dests ds).
+Proof. destruct ds as [|[b d] [|p t]]; try reflexivity. apply multi_write_evs. Qed.
+Lemma comb_write_errs ds len : wr_errs (comb_write ds len) = errs_of w_err ds.
+Proof.
+  destruct ds as [|[b d] [|p t]]; [reflexivity| |apply multi_write_errs].
+  unfold errs_of. cbn. destruct (w_err b); reflexivity.
+Qed.
+Lemma comb_write_n ds len : Forall (fun p => w_n (fst p) <= len) ds ->
+  wr_n (comb_write ds len) = fold_right Nat.min len (ns_of ds).
+Proof.
+  destruct ds as [|[b d] [|p t]]; intros F; [reflexivity| |apply multi_write_n].
+  inversion F as [|? ? H _]; subst. cbn in *. lia.
+Qed.
+Lemma comb_sync_evs ds : wr_evs (comb_sync ds) = map WSync (dests ds).
+Proof. destruct ds as [|[b d] [|p t]]; try reflexivity. apply multi_sync_evs. Qed.
+Lemma comb_sync_errs ds : wr_errs (comb_sync ds) = errs_of w_serr ds.
+Proof.
+  destruct ds as [|[b d] [|p t]]; [reflexivity| |apply multi_sync_errs].
+  unfold errs_of. cbn. destruct (w_serr b); reflexivity.
+Qed.
+Lemma comb_sync_n ds : wr_n (comb_sync ds) = 0.
+Proof. destruct ds as [|[b d] [|p t]]; try reflexivity. Qed.
+
+(* counting what a destination received *)
+Lemma wcount_app f a b : wcount f (a ++ b) = wcount f a + wcount f b.
+Proof. unfold wcount. now rewrite filter_app, app_length. Qed.
+Lemma wcount_nil f : wcount f [] = 0.
+Proof. reflexivity. Qed.
+Lemma ww_in d l : NoDup l -> In d l -> wcount (is_wwrite d) (map WWrite l) = 1.
+Proof.
+  induction l as [|a l IH]; intros ND H; [destruct H|]. inversion ND as [|? ? Hn ND']; subst.
+  unfold wcount in *. cbn [map filter is_wwrite]. destruct (Nat.eqb_spec a d) as [->|Ne].
+  - cbn [length]. f_equal. clear IH H ND ND'. induction l as [|x l IHl]; [reflexivity|].
+    cbn [map filter is_wwrite]. destruct (Nat.eqb_spec x d) as [->|_]; [exfalso; apply Hn; now left|].
+    apply IHl. intros H; apply Hn; now right.
+  - destruct H as [->|H]; [congruence|]. apply IH; assumption.
+Qed.
+Lemma ww_out d l : ~ In d l -> wcount (is_wwrite d) (map WWrite l) = 0.
+Proof.
+  unfold wcount. induction l as [|a l IH]; intros H; [reflexivity|]. cbn [map filter is_wwrite].
+  destruct (Nat.eqb_spec a d) as [->|_]; [exfalso; apply H; now left|]. apply IH. intros H'; apply H; now right.
+Qed.
+Lemma ws_w d l : wcount (is_wsync d) (map WWrite l) = 0.
+Proof. unfold wcount. induction l as [|a l IH]; [reflexivity|]. exact IH. Qed.
+Lemma ss_in d l : NoDup l -> In d l -> wcount (is_wsync d) (map WSync l) = 1.
+Proof.
+  induction l as [|a l IH]; intros ND H; [destruct H|]. inversion ND as [|? ? Hn ND']; subst.
+  unfold wcount in *. cbn [map filter is_wsync]. destruct (Nat.eqb_spec a d) as [->|Ne].
+  - cbn [length]. f_equal. clear IH H ND ND'. induction l as [|x l IHl]; [reflexivity|].
+    cbn [map filter is_wsync]. destruct (Nat.eqb_spec x d) as [->|_]; [exfalso; apply Hn; now left|].
+    apply IHl. intros H; apply Hn; now right.
+  - destruct H as [->|H]; [congruence|]. apply IH; assumption.
+Qed.
+Lemma ss_out d l : ~ In d l -> wcount (is_wsync d) (map WSync l) = 0.
+Proof.
+  unfold wcount. induction l as [|a l IH]; intros H; [reflexivity|]. cbn [map filter is_wsync].
+  destruct (Nat.eqb_spec a d) as [->|_]; [exfalso; apply H; now left|]. apply IH. intros H'; apply H; now right.
+Qed.
+Lemma sw_s d l : wcount (is_wwrite d) (map WSync l) = 0.
+Proof. unfold wcount. induction l as [|a l IH]; [reflexivity|]. exact IH. Qed.
+
+(* one internal-error line: every error-output destination gets one Write and one Sync *)
+Lemma err_line_evs ds2 len : err_line ds2 len = map WWrite (dests ds2) ++ map WSync (dests ds2).
+Proof. unfold err_line. now rewrite comb_write_evs, comb_sync_evs. Qed.
+Lemma err_line_in d ds2 len : NoDup (dests ds2) -> In d (dests ds2) ->
+  wcount (is_wwrite d) (err_line ds2 len) = 1 /\ wcount (is_wsync d) (err_line ds2 len) = 1.
+Proof.
+  intros ND H. rewrite err_line_evs, !wcount_app, ww_in, ss_in, ws_w, sw_s by assumption. split; reflexivity.
+Qed.
+Lemma err_line_out d ds2 len : ~ In d (dests ds2) ->
+  wcount (is_wwrite d) (err_line ds2 len) = 0 /\ wcount (is_wsync d) (err_line ds2 len) = 0.
+Proof.
+  intros H. rewrite err_line_evs, !wcount_app, ww_out, ss_out, ws_w, sw_s by assumption. split; reflexivity.
+Qed.
+
+Lemma nodup_app_parts {A} (l1 l2 : list A) : NoDup (l1 ++ l2) ->
+  NoDup l1 /\ NoDup l2 /\ (forall d, In d l1 -> ~ In d l2).
+Proof.
+  induction l1 as [|a l1 IH]; cbn [app]; intros ND; [repeat split; [constructor|exact ND|intros d []]|].
+  inversion ND as [|? ? Hn ND']; subst. destruct (IH ND') as (N1 & N2 & Dj). repeat split.
+  - constructor; [|exact N1]. intros H; apply Hn, in_or_app; now left.
+  - exact N2.
+  - intros d [->|H]; [intros H2; apply Hn, in_or_app; now right|apply Dj, H].
+Qed.
+
+Definition b2n (b : bool) : nat := if b then 1 else 0.
+Definition any_err (ds : list (wbeh * nat)) : bool := negb (is_nil (errs_of w_err ds)).
+
+(* one step, any mode: what a destination of the writer / of the output received ... *)
+Lemma step_counts_out mode cl len t ds1 ds2 d :
+  NoDup (dests ds1 ++ dests ds2) -> In d (dests ds1) ->
+  let E := wr_evs (step_res mode cl len t ds1 ds2) in
+  wcount (is_wwrite d) E = b2n (Z.eqb t 0) /\ wcount (is_wsync d) E = b2n (negb (Z.eqb t 0)).
+Proof.
+  intros ND H. destruct (nodup_app_parts _ _ ND) as (ND1 & _ & Dj). pose proof (Dj d H) as N2.
+  destruct (err_line_out d ds2 len N2) as [L1 L2].
+  unfold step_res. destruct (Z.eqb mode 2), (Z.eqb t 0); cbn [wr_evs b2n negb];
+    rewrite ?comb_write_evs, ?comb_sync_evs, ?comb_write_errs, ?wcount_app;
+    try (destruct cl); try (destruct (is_nil (errs_of w_err ds1)));
+    rewrite ?wcount_nil, ?L1, ?L2, ?ws_w, ?sw_s, ?(ww_in d _ ND1 H), ?(ss_in d _ ND1 H); split; reflexivity.
+Qed.
+(* ... and what a destination of the error output received *)
+Lemma step_counts_err mode cl len t ds1 ds2 d :
+  NoDup (dests ds1 ++ dests ds2) -> In d (dests ds2) ->
+  let E := wr_evs (step_res mode cl len t ds1 ds2) in
+  let k := if Z.eqb mode 2 && Z.eqb t 0 then b2n cl + b2n (any_err ds1) else 0 in
+  wcount (is_wwrite d) E = k /\ wcount (is_wsync d) E = k.
+Proof.
+  intros ND H. destruct (nodup_app_parts _ _ ND) as (_ & ND2 & Dj).
+  assert (N1 : ~ In d (dests ds1)) by (intros H1; exact (Dj d H1 H)).
+  destruct (err_line_in d ds2 len ND2 H) as [L1 L2].
+  unfold step_res, any_err. destruct (Z.eqb mode 2), (Z.eqb t 0); cbn [wr_evs b2n negb andb];
+    rewrite ?comb_write_evs, ?comb_sync_evs, ?comb_write_errs, ?wcount_app;
+    try (destruct cl); try (destruct (is_nil (errs_of w_err ds1)));
+    cbn [b2n negb]; rewrite ?wcount_nil, ?L1, ?L2, ?ws_w, ?sw_s, ?(ww_out d _ N1), ?(ss_out d _ N1); split; reflexivity.
+Qed.
+
+(* numbering *)
+Lemma dests_number {A} (l : list A) k : map snd (number k l) = seq k (length l).
+Proof. revert k. induction l as [|a l IH]; intros k; cbn; [reflexivity|]. now rewrite IH. Qed.
+Lemma fsts_number {A} (l : list A) k : map fst (number k l) = l.
+Proof. revert k. induction l as [|a l IH]; intros k; cbn; [reflexivity|]. now rewrite IH. Qed.
+Lemma nodup_two {A} (l1 l2 : list A) : NoDup (seq 0 (length l1) ++ seq (length l1) (length l2)).
+Proof. rewrite <- seq_app. apply seq_NoDup. Qed.
+Lemma is_nil_number {A} (l : list A) k : is_nil (number k l) = is_nil l.
+Proof. destruct l; reflexivity. Qed.
+Lemma is_nil_map {A B} (f : A -> B) l : is_nil (map f l) = is_nil l.
+Proof. destruct l; reflexivity. Qed.
+Lemma any_err_number (b1 : list wbeh) k : any_err (number k b1) = existsb w_err b1.
+Proof.
+  unfold any_err, errs_of. rewrite is_nil_map. revert k. induction b1 as [|b l IH]; intros k; [reflexivity|].
+  cbn [number filter fst existsb]. destruct (w_err b); [reflexivity|]. apply IH.
+Qed.
+
+Lemma dest_stats_const E (ds : list (wbeh * nat)) w s :
+  (forall p, In p ds -> wcount (is_wwrite (snd p)) E = w /\ wcount (is_wsync (snd p)) E = s) ->
+  dest_stats E ds = SL (map (fun _ => SL [of_nat w; of_nat s]) ds).
+Proof.
+  intros H. unfold dest_stats. f_equal. apply map_ext_in. intros p Hp. destruct (H p Hp) as [-> ->]. reflexivity.
+Qed.
+Lemma all_stat_number {A} w s (l : list A) k :
+  SL (map (fun _ : A * nat => SL [of_nat w; of_nat s]) (number k l)) = all_stat w s l.
+Proof.
+  unfold all_stat. f_equal. revert k. induction l as [|a l IH]; intros k; cbn; [reflexivity|]. now rewrite IH.
+Qed.
+Lemma failing_errs f l : failing f l = map of_nat (errs_of f (number 0 l)).
+Proof. unfold failing, errs_of. now rewrite map_map. Qed.
+
+(* the model's observation of a step is what the oracle expects *)
+Lemma model_step_expect mode cl len st : wf_step len st = true -> model_step mode cl len st = expect_step mode cl len st.
+Proof.
+  intros W. unfold model_step, expect_step, obs_step.
+  set (t := sx_z (sx_nth st 0)). set (b1 := dec_behs (sx_nth st 1)). set (b2 := dec_behs (sx_nth st 2)).
+  set (ds1 := number 0 b1). set (ds2 := number (length b1) b2).
+  assert (D1 : dests ds1 = seq 0 (length b1)) by apply dests_number.
+  assert (D2 : dests ds2 = seq (length b1) (length b2)) by apply dests_number.
+  assert (ND : NoDup (dests ds1 ++ dests ds2)) by (rewrite D1, D2; apply nodup_two).
+  assert (S1 : dest_stats (wr_evs (step_res mode cl len t ds1 ds2)) ds1
+               = all_stat (b2n (Z.eqb t 0)) (b2n (negb (Z.eqb t 0))) b1).
+  { unfold ds1 at 2. rewrite <- all_stat_number with (k := 0). apply dest_stats_const. intros p Hp.
+    apply step_counts_out; [exact ND|]. apply in_map, Hp. }
+  assert (S2 : dest_stats (wr_evs (step_res mode cl len t ds1 ds2)) ds2
+               = let k := if Z.eqb mode 2 && Z.eqb t 0 then b2n cl + b2n (any_err ds1) else 0 in all_stat k k b2).
+  { cbn zeta. unfold ds2 at 2. rewrite <- all_stat_number with (k := length b1). apply dest_stats_const. intros p Hp.
+    apply step_counts_err; [exact ND|]. apply in_map, Hp. }
+  rewrite S1, S2. cbn zeta. replace (any_err ds1) with (existsb w_err b1) by (symmetry; apply any_err_number).
+  assert (WF : Forall (fun p : wbeh * nat => w_n (fst p) <= len) ds1).
+  { unfold wf_step in W. fold b1 in W. rewrite forallb_forall in W. apply Forall_forall. intros p Hp.
+    apply Nat.leb_le, W. rewrite <- (fsts_number b1 0). apply in_map, Hp. }
+  unfold step_res. destruct (Z.eqb t 0) eqn:Et; destruct (Z.eqb mode 2) eqn:Em; cbn [andb b2n negb wr_n wr_errs].
+  - rewrite comb_write_errs. unfold ds2 at 1. rewrite is_nil_number, failing_errs. fold ds1.
+    destruct cl, (existsb w_err b1), (is_nil b2); reflexivity.
+  - rewrite comb_write_errs, (comb_write_n _ _ WF), failing_errs. unfold ns_of, ds1.
+    rewrite <- (map_map fst w_n), fsts_number. reflexivity.
+  - rewrite comb_sync_errs, comb_sync_n, failing_errs. reflexivity.
+  - rewrite comb_sync_errs, comb_sync_n, failing_errs. reflexivity.
+Qed.
+
+Lemma expect_step_shape mode cl len st : exists x y z, expect_step mode cl len st = SL (x :: y :: z).
+Proof. unfold expect_step. destruct (Z.eqb _ 0); [destruct (Z.eqb mode 2)|]; eexists _, _, _; reflexivity. Qed.
+Lemma expect_not_blocked mode cl len l : is_blocked (SL (map (expect_step mode cl len) l)) = false.
+Proof.
+  destruct l as [|a l]; [reflexivity|]. cbn [map]. destruct (expect_step_shape mode cl len a) as (x & y & z & ->).
+  reflexivity.
+Qed.
+Lemma wire_multi i : forallb (wf_step (sx_n (sx_nth i 3))) (sx_l (sx_nth i 6)) = true -> spec_multi i (model_multi i) = true.
+Proof.
+  intros W. unfold spec_multi, model_multi. rewrite forallb_forall in W.
+  rewrite (map_ext_in _ _ _ (fun st Hs => model_step_expect _ _ _ st (W st Hs))).
+  now rewrite expect_not_blocked, sx_eqb_refl.
+Qed.
+
+(* ---- the statements of Props/C19.v ---- *)
+(* one Write on the writer of Open / CombineWriteSyncers over any destinations with any
+   answers: the calls made are one Write per destination, in order - a function of the
+   destination list alone, not of what any destination answers *)
+Lemma comb_write_all (ds : list (wbeh * nat)) (len : nat) :
+  let r := comb_write ds len in
+  wr_evs r = map WWrite (map snd ds)
+  /\ (NoDup (map snd ds) -> forall d, In d (map snd ds) ->
+      wcount (is_wwrite d) (wr_evs r) = 1 /\ wcount (is_wsync d) (wr_evs r) = 0)
+  /\ wr_errs r = map snd (filter (fun p => w_err (fst p)) ds)
+  /\ (Forall (fun p => w_n (fst p) <= len) ds -> wr_n r = fold_right Nat.min len (map (fun p => w_n (fst p)) ds)).
+Proof.
+  cbn zeta. rewrite comb_write_evs. repeat split.
+  - now apply ww_in.
+  - apply ws_w.
+  - apply comb_write_errs.
+  - apply comb_write_n.
+Qed.
+Lemma comb_sync_all (ds : list (wbeh * nat)) :
+  let r := comb_sync ds in
+  wr_evs r = map WSync (map snd ds)
+  /\ (NoDup (map snd ds) -> forall d, In d (map snd ds) ->
+      wcount (is_wsync d) (wr_evs r) = 1 /\ wcount (is_wwrite d) (wr_evs r) = 0)
+  /\ wr_errs r = map snd (filter (fun p => w_serr (fst p)) ds).
+Proof.
+  cbn zeta. rewrite comb_sync_evs. repeat split.
+  - now apply ss_in.
+  - apply sw_s.
+  - apply comb_sync_errs.
+Qed.
+(* the answers do not matter: same destinations, same calls *)
+Lemma comb_write_answers_irrelevant ds ds' len len' :
+  map snd ds = map snd ds' -> wr_evs (comb_write ds len) = wr_evs (comb_write ds' len').
+Proof. intros H. rewrite !comb_write_evs. unfold dests. now rewrite H. Qed.
+
+(* one entry on the logger of Config.Build *)
+Lemma logger_entry_all (cl : bool) (len : nat) (ds1 ds2 : list (wbeh * nat)) :
+  NoDup (map snd ds1 ++ map snd ds2) ->
+  let r := step_res 2 cl len 0 ds1 ds2 in
+  let k := b2n cl + b2n (existsb (fun p => w_err (fst p)) ds1) in
+  (forall d, In d (map snd ds1) -> wcount (is_wwrite d) (wr_evs r) = 1 /\ wcount (is_wsync d) (wr_evs r) = 0)
+  /\ (forall d, In d (map snd ds2) -> wcount (is_wwrite d) (wr_evs r) = k /\ wcount (is_wsync d) (wr_evs r) = k)
+  /\ wr_errs r = (if is_nil ds2 then [] else map snd (filter (fun p => w_err (fst p)) ds1)).
+Proof.
+  intros ND. cbn zeta. repeat split.
+  - apply (step_counts_out 2 cl len 0 ds1 ds2 d ND H).
+  - apply (step_counts_out 2 cl len 0 ds1 ds2 d ND H).
+  - destruct (step_counts_err 2 cl len 0 ds1 ds2 d ND H) as [E _]. cbn zeta in E. cbn [Z.eqb Pos.eqb andb] in E. rewrite E. f_equal. f_equal.
+    unfold any_err, errs_of. rewrite is_nil_map. clear. induction ds1 as [|[b d] t IH]; [reflexivity|].
+    cbn [filter fst existsb]. destruct (w_err b); [reflexivity|]. exact IH.
+  - destruct (step_counts_err 2 cl len 0 ds1 ds2 d ND H) as [_ E]. cbn zeta in E. cbn [Z.eqb Pos.eqb andb] in E. rewrite E. f_equal. f_equal.
+    unfold any_err, errs_of. rewrite is_nil_map. clear. induction ds1 as [|[b d] t IH]; [reflexivity|].
+    cbn [filter fst existsb]. destruct (w_err b); [reflexivity|]. exact IH.
+  - unfold step_res. cbn [Z.eqb wr_errs]. now rewrite comb_write_errs.
+Qed.
+
+(* histories: over any sequence of Writes and Syncs with any answers, every destination of
+   the writer (every output destination of the logger) has received every Write (entry)
+   and every Sync exactly once *)
+Definition step_evs (mode : Z) (cl : bool) (len : nat) (st : sx) : list wev :=
+  let b1 := dec_behs (sx_nth st 1) in
+  wr_evs (step_res mode cl len (sx_z (sx_nth st 0)) (number 0 b1) (number (length b1) (dec_behs (sx_nth st 2)))).
+Definition history_evs (mode : Z) (cl : bool) (len : nat) (steps : list sx) : list wev :=
+  concat (map (step_evs mode cl len) steps).
+Definition is_write_step (st : sx) : bool := Z.eqb (sx_z (sx_nth st 0)) 0.
+Lemma history_delivery (mode : Z) (cl : bool) (len : nat) (steps : list sx) (nd d : nat) :
+  Forall (fun st => length (dec_behs (sx_nth st 1)) = nd) steps -> d < nd ->
+  wcount (is_wwrite d) (history_evs mode cl len steps) = length (filter is_write_step steps)
+  /\ wcount (is_wsync d) (history_evs mode cl len steps) = length (filter (fun st => negb (is_write_step st)) steps).
+Proof.
+  intros F Hd. unfold history_evs. induction F as [|st steps Hl F IH]; [split; reflexivity|].
+  cbn [map concat filter]. rewrite !wcount_app. destruct IH as [IH1 IH2]. rewrite IH1, IH2.
+  set (b1 := dec_behs (sx_nth st 1)) in *. set (b2 := dec_behs (sx_nth st 2)).
+  assert (ND : NoDup (dests (number 0 b1) ++ dests (number (length b1) b2))).
+  { unfold dests. rewrite !dests_number. apply nodup_two. }
+  assert (I : In d (dests (number 0 b1))).
+  { unfold dests. rewrite dests_number. apply in_seq. lia. }
+  destruct (step_counts_out mode cl len (sx_z (sx_nth st 0)) _ _ d ND I) as [C1 C2].
+  unfold step_evs. fold b1 b2. rewrite C1, C2. unfold is_write_step.
+  destruct (Z.eqb (sx_z (sx_nth st 0)) 0); cbn [b2n negb length]; split; lia.
+Qed.
+
 (* ------------------------------------------------------------------ all kinds *)
 Lemma spec_model i : wf i = true -> spec i (model i) = true.
 Proof.
@@ -550,6 +857,7 @@ Proof.
     apply (wire_mix_ops _ sreg0 ereg0 [] [] 2 Inv0); [constructor|exact EInv0|discriminate|exact Hwf].
   - (* 3 *) unfold spec_sreg, model_sreg. cbn [sx_l]. rewrite <- sreg0_keys.
     apply (wire_sreg_ops _ sreg0 [] 1 Inv0); [constructor|discriminate|exact Hwf].
+  - (* 6 *) apply wire_multi, Hwf.
   - (* 4 *) unfold spec_ereg, model_ereg. cbn [sx_l]. apply (wire_ereg_ops _ ereg0 [] 2 EInv0).
   - (* 2 *) apply wire_redirect.
   - (* 1 *) apply andb_true_iff in Hwf as [W1 W2]. apply wire_build; assumption.
